@@ -120,3 +120,7 @@ Fixpoint qlist_close (a b : list Q) (tol : Q) : bool :=
   | _, _ => false
   end.
 Definition v_close_rel (a b : list Q) (tol : Q) : Z := v_of (qlist_close a b tol).
+
+(* scalar = array to the statement's accuracies: pixels / jacobian entries absolutely, sky positions on the sky *)
+Definition v_close_abs (a b : list Q) (tol : Q) : Z := v_of (qlist_close_abs a b tol).
+Definition v_sky_same (a b : list (Q * Q)) (tol : Q) : Z := v_of (sky_list_same a b tol).
